@@ -178,6 +178,50 @@ theorem full_history_spec (crop : CropFn ℚ) (hcrop : Defining crop) (c : ℕ) 
 theorem backends_defining : Defining (pixelCrop (α := ℚ)) ∧ Defining (sliceCrop (α := ℚ)) :=
   ⟨pixelCrop_defining, sliceCrop_defining⟩
 
+
+/-- **frame condition**: whatever the history of the run so far, a call never writes an output entry outside `[0, n)`
+nor a buffer slot outside `[0, b)` (`n` peaks, `b` buffers): what lies behind the peak list / beyond the buffer stack of
+this call keeps its previous content -/
+theorem runStN_frame (A : BlockArith) (hA : C08.GoodArith A) (crop : CropFn α)
+    (eval : (Int → Int → α) → β) (post : (Int → Int → α) → (Int → Int → α)) (c h w : Int)
+    (cl : Call α) (hb : 0 < cl.b) (st : St α β) (m : Nat) :
+    (∀ i, (i < 0 ∨ cl.n ≤ i) → (runStN A crop eval post c h w cl st m).out i = st.out i) ∧
+    (∀ j y x, (j < 0 ∨ cl.b ≤ j) → (runStN A crop eval post c h w cl st m).bufs j y x = st.bufs j y x) := by
+  induction m with
+  | zero => exact ⟨fun _ _ => rfl, fun _ _ _ _ => rfl⟩
+  | succ m ih =>
+    obtain ⟨iho, ihb⟩ := ih
+    have hs := hA.start_eq cl.n cl.b (m : Int)
+    have he := hA.stop_eq cl.n cl.b (m : Int)
+    have hm : (0 : Int) ≤ (m : Int) := Int.natCast_nonneg m
+    have hs0 : 0 ≤ A.start cl.n cl.b (m : Int) := by rw [hs]; positivity
+    constructor
+    · intro i hi
+      simp only [runStN, blockStepSt]
+      rw [if_neg (by
+        rintro ⟨h1, h2⟩
+        rw [he] at h2
+        have : i < cl.n := lt_of_lt_of_le h2 (min_le_right _ _)
+        omega)]
+      exact iho i hi
+    · intro j y x hj
+      simp only [runStN, blockStepSt]
+      rw [if_neg (by
+        rintro ⟨h1, h2, _⟩
+        rw [hA.size_eq, hs, he] at h2
+        have h3 : min (((m : Int) + 1) * cl.b) cl.n - (m : Int) * cl.b ≤ cl.b := by
+          have := min_le_left (((m : Int) + 1) * cl.b) cl.n
+          nlinarith
+        omega)]
+      exact ihb j y x hj
+
+theorem processFrame_frame (A : BlockArith) (hA : C08.GoodArith A) (crop : CropFn α)
+    (eval : (Int → Int → α) → β) (post : (Int → Int → α) → (Int → Int → α)) (c h w : Int)
+    (st : St α β) (cl : Call α) (hb : 0 < cl.b) :
+    (∀ i, (i < 0 ∨ cl.n ≤ i) → (processFrame A crop eval post c h w st cl).out i = st.out i) ∧
+    (∀ j y x, (j < 0 ∨ cl.b ≤ j) → (processFrame A crop eval post c h w st cl).bufs j y x = st.bufs j y x) :=
+  runStN_frame A hA crop eval post c h w cl hb st _
+
 /-- Defect D1 (pre-repair): without the zero fill the slicing back-end is *not* defining, and a
 two-call history leaks: the value left by the first frame shows up in the second result. -/
 theorem leak_prefix_counterexample :
